@@ -509,6 +509,31 @@ def check_csrf_protocol(rep: Report) -> None:
         else:
             rep.fail(rid, construct, f'hmac covers {label}',
                      f'the signature does not depend on the {label}', chk)
+    # the value looked up / recorded as "used" is the decoded token the signature is cut from
+    salt_src = None
+    for n in ast.walk(chk):
+        if isinstance(n, ast.Assign) and norm(n.targets[0]) == 'salt' \
+                and isinstance(n.value, ast.Subscript) and isinstance(n.value.value, ast.Name):
+            salt_src = n.value.value.id
+    jtis = []
+    for n in ast.walk(chk):
+        if isinstance(n, ast.Call) and call_name(n) in ('Token.get_one', 'Token'):
+            for k in n.keywords:
+                if k.arg == 'jti':
+                    jtis.append(norm(k.value))
+    decoded_ok = False
+    for n in ast.walk(chk):
+        if isinstance(n, ast.Assign) and isinstance(n.targets[0], ast.Name) \
+                and n.targets[0].id == salt_src and 'unquote' in norm(n.value):
+            decoded_ok = True
+    if salt_src and len(jtis) >= 2 and all(j == salt_src for j in jtis) and decoded_ok:
+        rep.ok(rid, construct, 're-use tracked on the verified token text',
+               f'jti={salt_src} (the percent-decoded token) in both lookup and record')
+    else:
+        rep.fail(rid, construct, 're-use tracked on the verified token text',
+                 f'the re-use lookup/record use jti={jtis} while the signature is verified on '
+                 f'`{salt_src}` (percent-decoded): another percent-encoding of the same token is '
+                 'accepted again', chk)
     # csrf_key comes from the request cookie
     src = [n for n in ast.walk(chk) if isinstance(n, ast.Assign) and norm(n.targets[0]) == 'csrf_key']
     if src and all('flask.request.cookies' in norm(n.value) for n in src):
@@ -565,7 +590,7 @@ def analyse(rep: Report) -> None:
              floor=0, informational=True)
     rep.rule('R15.3', 'no model store precedes the CSRF check in a verb method', floor=8)
     rep.rule('R15.4', 'CsrfProtection.check: re-use refused, token recorded, HMAC over cookie key, '
-                      'service and salt, mismatch raises', floor=11)
+                      'service and salt, mismatch raises', floor=12)
     rep.rule('R15.5', 'CSRF service names issued vs. checked', floor=0, informational=True)
     idx = Index(rep.repo)
     cg = CallGraph(idx)
